@@ -14,6 +14,9 @@ from concurrent.futures import ThreadPoolExecutor
 import corpus as C
 from subject import REPRS, repr_lo, repr_hi
 
+# one identifier: letters, digits, `_`, and what else may continue an identifier (combining marks, connector punctuation)
+IDC = r"[\w\u0300-\u036F\u0900-\u097F\u203F\u2040]+"
+
 HEADER = "#![allow(dead_code, unused, non_camel_case_types, non_snake_case, non_upper_case_globals, unreachable_patterns)]\n"
 
 
@@ -233,22 +236,22 @@ def extract(mod_text, subj):
     # constants, functions and structs with their visibility (doc attributes removed first)
     nodoc = re.sub(r'#\[doc\s*=\s*r?' + STR_RE + r'\]', "", flat)
     nodoc = re.sub(r"#\[inline\]|#\[automatically_derived\]|#\[doc\(hidden\)\]", "", nodoc)
-    for im in re.finditer(r"(?<![\w:])((?:pub(?:\([^)]*\))?\s+)?)(const fn|fn|const|struct)\s+(\w+)", nodoc):
+    for im in re.finditer(r"(?<![\w:])((?:pub(?:\([^)]*\))?\s+)?)(const fn|fn|const|struct)\s+(" + IDC + r")", nodoc):
         vis, kind, name = im.group(1).strip(), im.group(2), im.group(3)
         out["items"].setdefault(name, []).append({"vis": vis, "kind": kind})
-    mm = re.search(r"const (\w+): " + E + r" = " + E + r"::((?:r#)?\w+); (?:#\[doc[^\]]*\] )*(?:///[^\n]*)?", flat)
-    consts = re.findall(r"((?:pub(?:\([^)]*\))? )?)const (\w+): " + E + r" = " + E + r"::((?:r#)?\w+);", flat)
+    mm = re.search(r"const (" + IDC + r"): " + E + r" = " + E + r"::((?:r#)?\w+); (?:#\[doc[^\]]*\] )*(?:///[^\n]*)?", flat)
+    consts = re.findall(r"((?:pub(?:\([^)]*\))? )?)const (" + IDC + r"): " + E + r" = " + E + r"::((?:r#)?\w+);", flat)
     out["enum_consts"] = [{"vis": v.strip(), "name": n, "variant": var} for v, n, var in consts]
     # iterator mode from the struct's field type
-    im = re.search(r"struct (\w+) \{ inner: ::core::iter::Map<", flat)
+    im = re.search(r"struct (" + IDC + r") \{ inner: ::core::iter::Map<", flat)
     if im: out["iter_mode"] = "range"
-    elif re.search(r"struct \w+ \{ fwd: ", flat): out["iter_mode"] = "next_and_back"
-    elif re.search(r"struct \w+ \{ inner: ::core::array::IntoIter<", flat): out["iter_mode"] = "table_inline"
-    elif re.search(r"struct \w+ \{ inner: ::core::iter::Copied<::core::slice::Iter<'static, " + E + ">>", flat): out["iter_mode"] = "table"
+    elif re.search(r"struct " + IDC + r" \{ fwd: ", flat): out["iter_mode"] = "next_and_back"
+    elif re.search(r"struct " + IDC + r" \{ inner: ::core::array::IntoIter<", flat): out["iter_mode"] = "table_inline"
+    elif re.search(r"struct " + IDC + r" \{ inner: ::core::iter::Copied<::core::slice::Iter<'static, " + E + ">>", flat): out["iter_mode"] = "table"
     else: out["iter_mode"] = None
     # string modes
     out["as_str_mode"] = None
-    am = re.search(r"fn (\w+)\(self\) -> &'static str \{ (.{0,60})", flat)
+    am = re.search(r"fn (" + IDC + r")\(self\) -> &'static str \{ (.{0,60})", flat)
     if am:
         out["as_str_mode"] = "match" if am.group(2).lstrip().startswith("match self") else "table"
     return out
